@@ -298,7 +298,7 @@ def rule_rates(ctx):
     ctx.ob('C04.rates', f'{mod.name}:SynthDef._args_to_controls:overridden', 'overridden = lag in rate_names' in src,
            'the rates argument overrides an annotation only when it names a rate', f.node, mod)
     ctx.ob('C04.rates', f'{mod.name}:SynthDef._args_to_controls:rates-padding',
-           'rates += [0] * (len(names) - len(rates))' in src, 'missing rates default to 0 (no lag)', f.node, mod)
+           ('[0] * (len(names) - len(rates))' in src or '[0.0] * (len(names) - len(rates))' in src), 'missing rates default to 0 (no lag)', f.node, mod)
     # values
     g = sd.methods['_get_valid_arg_values']
     src = full(g.node)
